@@ -125,7 +125,80 @@ VSERVER_DDL = (
     "BEGIN UPDATE gm_vserver SET ver = OLD.ver + 1 WHERE id = NEW.id; END"
 )
 
-VERSIONED = {"int": VInt, "uuid": VUuid, "server": VServer}
+# classes mapped to SEVERAL tables: the version column lives in one table, some attributes
+# in the other one
+vj_a = sa.Table("gm_vj_a", Base44.metadata, sa.Column("id", sa.Integer, primary_key=True),
+                sa.Column("ver", sa.Integer, nullable=False), sa.Column("payload", sa.String(40)))
+vj_b = sa.Table("gm_vj_b", Base44.metadata, sa.Column("id", sa.ForeignKey("gm_vj_a.id"), primary_key=True),
+                sa.Column("other", sa.String(40)))
+vk_a = sa.Table("gm_vk_a", Base44.metadata, sa.Column("id", sa.Integer, primary_key=True),
+                sa.Column("payload", sa.String(40)))
+vk_b = sa.Table("gm_vk_b", Base44.metadata, sa.Column("id", sa.ForeignKey("gm_vk_a.id"), primary_key=True),
+                sa.Column("ver", sa.Integer, nullable=False), sa.Column("other", sa.String(40)))
+
+
+class VJoinA(Base44):
+    """mapped to a JOIN b without inheritance; version counter in a, ``other`` in b"""
+
+    __table__ = sa.join(vj_a, vj_b)
+    id = orm.column_property(vj_a.c.id, vj_b.c.id)
+    __mapper_args__ = {"version_id_col": vj_a.c.ver}
+
+
+class VJoinB(Base44):
+    """mapped to a JOIN b without inheritance; version counter in b, ``payload`` in a"""
+
+    __table__ = sa.join(vk_a, vk_b)
+    id = orm.column_property(vk_a.c.id, vk_b.c.id)
+    __mapper_args__ = {"version_id_col": vk_b.c.ver}
+
+
+class VBase(Base44):
+    __tablename__ = "gm_vi_base"
+    id = sa.Column(sa.Integer, primary_key=True)
+    ver = sa.Column(sa.Integer, nullable=False)
+    payload = sa.Column(sa.String(40))
+    kind = sa.Column(sa.String(10))
+    __mapper_args__ = {"version_id_col": ver, "polymorphic_on": kind, "polymorphic_identity": "base"}
+
+
+class VChild(VBase):
+    """joined-table inheritance: version counter in the base table, ``other`` in the child table"""
+
+    __tablename__ = "gm_vi_child"
+    id = sa.Column(sa.ForeignKey("gm_vi_base.id"), primary_key=True)
+    other = sa.Column(sa.String(40))
+    __mapper_args__ = {"polymorphic_identity": "child"}
+
+
+VERSIONED = {"int": VInt, "uuid": VUuid, "server": VServer, "join_a": VJoinA, "join_b": VJoinB, "inh": VChild}
+
+# per style: tables (creation order), raw INSERTs for row %(r)d (version %(v)s), the SELECT that
+# shows a logical row as (id, ver, payload, other), and the attributes stored in the table
+# that holds the version column
+VSTYLE = {
+    "int": dict(tables=["gm_vint"], ver_cols=("payload", "other"),
+                inserts=["INSERT INTO gm_vint (id, ver, payload, other) VALUES (%(r)d, %(v)s, 'p0-%(r)d', 'o0-%(r)d')"],
+                select="SELECT id, ver, payload, other FROM gm_vint"),
+    "uuid": dict(tables=["gm_vuuid"], ver_cols=("payload", "other"),
+                 inserts=["INSERT INTO gm_vuuid (id, ver, payload, other) VALUES (%(r)d, %(v)s, 'p0-%(r)d', 'o0-%(r)d')"],
+                 select="SELECT id, ver, payload, other FROM gm_vuuid"),
+    "server": dict(tables=["gm_vserver"], ver_cols=("payload", "other"),
+                   inserts=["INSERT INTO gm_vserver (id, ver, payload, other) VALUES (%(r)d, %(v)s, 'p0-%(r)d', 'o0-%(r)d')"],
+                   select="SELECT id, ver, payload, other FROM gm_vserver"),
+    "join_a": dict(tables=["gm_vj_a", "gm_vj_b"], ver_cols=("payload",),
+                   inserts=["INSERT INTO gm_vj_a (id, ver, payload) VALUES (%(r)d, %(v)s, 'p0-%(r)d')",
+                            "INSERT INTO gm_vj_b (id, other) VALUES (%(r)d, 'o0-%(r)d')"],
+                   select="SELECT a.id, a.ver, a.payload, b.other FROM gm_vj_a a JOIN gm_vj_b b ON a.id = b.id"),
+    "join_b": dict(tables=["gm_vk_a", "gm_vk_b"], ver_cols=("other",),
+                   inserts=["INSERT INTO gm_vk_a (id, payload) VALUES (%(r)d, 'p0-%(r)d')",
+                            "INSERT INTO gm_vk_b (id, ver, other) VALUES (%(r)d, %(v)s, 'o0-%(r)d')"],
+                   select="SELECT a.id, b.ver, a.payload, b.other FROM gm_vk_a a JOIN gm_vk_b b ON a.id = b.id"),
+    "inh": dict(tables=["gm_vi_base", "gm_vi_child"], ver_cols=("payload",),
+                inserts=["INSERT INTO gm_vi_base (id, ver, payload, kind) VALUES (%(r)d, %(v)s, 'p0-%(r)d', 'child')",
+                         "INSERT INTO gm_vi_child (id, other) VALUES (%(r)d, 'o0-%(r)d')"],
+                select="SELECT b.id, b.ver, b.payload, c.other FROM gm_vi_base b JOIN gm_vi_child c ON b.id = c.id"),
+}
 
 
 # --------------------------------------------------------------------------
